@@ -88,7 +88,32 @@ def c06Show (toks : List String) (tag : String) (s : String) : String :=
     | _ => s
   else s
 
-def checkC06 (toks : List String) (res : String) : Option Verdict := do
+/-- `winc <path> <tag> <pre+|pre-|post+|post-> <T> <l>`: `++`/`--` on overflow_integer<T, tag> is `x += 1` under the
+tag (tagged addition in the promoted type, then the tagged conversion back to `T`); the implementation prints
+`<new value>|<returned value>` or the reaction.  Returns (model, want, branch). -/
+def c06Winc (toks : List String) : Option (String × String × String) :=
+  match toks with
+  | ["winc", path, tag, kind, t, l] => do
+    let path ← parsePath path; let tg ← parseOvTag tag; let T ← parseIntTy t; let l ← l.toInt?
+    let isInc := kind == "pre+" || kind == "post+"
+    let isPre := kind == "pre+" || kind == "pre-"
+    let op : BinOp := if isInc then .add else .sub
+    let m : Res (Int × Int) := do
+      let r ← checkedBin path tg op (T, l) (i32, 1)
+      let n ← checkedConvert tg T r
+      pure (n.2, if isPre then n.2 else l)
+    let showP (p : Int × Int) : String := s!"{p.1}|{p.2}"
+    let e : Int := if isInc then l + 1 else l - 1
+    let want : String := match Spec.checkedWant tg T e with
+      | .ok v => showP (v.2, if isPre then v.2 else l)
+      | o => showRes showTV o
+    some (showRes showP m, want, s!"winc/{kind}/{tag}" ++ (if T.inRange e then "" else "/ovf"))
+  | _ => none
+
+def checkC06 (toks : List String) (res : String) : Option Verdict :=
+  match c06Winc toks with
+  | some (m, want, br) => some { model := m, spec := some (want == res), branch := br, nontrivial := true }
+  | none => do
   let c ← c06Eval toks
   let tag := toks.getD 2 ""
   let m := c06Show toks tag (showRes showTV c.model)
@@ -96,7 +121,12 @@ def checkC06 (toks : List String) (res : String) : Option Verdict := do
   some { model := m, spec := spec, cls := c.cls, branch := c.branch, nontrivial := c.want.isSome }
 
 /-- C07: the evaluation is defined (no UB, no internal `unreachable`, no crash) -/
-def checkC07 (toks : List String) (res : String) : Option Verdict := do
+def checkC07 (toks : List String) (res : String) : Option Verdict :=
+  match c06Winc toks with
+  | some (m, _, br) =>
+    let bad := res == "UB" || res == "UNREACHABLE" || res == "SEGV" || res == "ABORT" || res == "TIMEOUT"
+    some { model := m, spec := some (!bad), branch := br, nontrivial := true }
+  | none => do
   let c ← c06Eval toks
   let tag := toks.getD 2 ""
   let m := c06Show toks tag (showRes showTV c.model)
